@@ -365,7 +365,11 @@ func (g *mgen) enumNumber(ed protoreflect.EnumDescriptor) protoreflect.EnumNumbe
 	if !g.repr && g.badKinds["enum"] && g.r.IntN(3) == 0 {
 		return protoreflect.EnumNumber(900 + g.r.IntN(10))
 	}
-	return vs.Get(g.r.IntN(vs.Len())).Number()
+	n := vs.Get(g.r.IntN(vs.Len())).Number()
+	if g.repr && n == 0 && !enumDefined(g.ts, ed, 0) && vs.Len() > 1 {
+		n = vs.Get(1 + g.r.IntN(vs.Len()-1)).Number() // NoDefault enums have no option for 0
+	}
+	return n
 }
 
 func (g *mgen) single(fd protoreflect.FieldDescriptor, depth int, newVal func() protoreflect.Value) protoreflect.Value {
@@ -507,7 +511,8 @@ func (g *mgen) message(md protoreflect.MessageDescriptor, depth int) protoreflec
 				m.Set(fd, protoreflect.ValueOfMessage(g.ts.newMessage(fd.Message())))
 				continue
 			}
-			if fd.HasPresence() && fd.Kind() != protoreflect.MessageKind && g.r.IntN(3) == 0 {
+			if fd.HasPresence() && fd.Kind() != protoreflect.MessageKind && g.r.IntN(3) == 0 &&
+				!(g.repr && fd.Kind() == protoreflect.EnumKind && !enumDefined(g.ts, fd.Enum(), 0)) {
 				// optional-with-zero-value
 				m.Set(fd, fd.Default())
 				continue
